@@ -1,0 +1,32 @@
+//go:build verif
+
+// Contracts for contract-based deductive verification (govc, /verif).
+// This file contains comments only; it adds no code to the package.
+
+package boson
+
+//@ # xbit(a, b, p): bit p (counted from the most significant bit of byte 0) of a XOR b
+//@ spec func xbit(a []byte, b []byte, p int) bool = bit(a[p/8] ^ b[p/8], 7 - p%8)
+
+//@ func Proximity
+//@   property C20
+//@   note addresses long enough for the cap to be reachable (the statement caps at MaxPO)
+//@   requires len(one) == len(other) && 8*len(one) > 31
+//@   ensures cap: int(ret) <= 31
+//@   ensures prefix-equal: forall p :: 0 <= p && p < int(ret) ==> !xbit(one, other, p)
+//@   ensures first-diff: int(ret) < 31 ==> xbit(one, other, int(ret))
+//@   loop 1 invariant 0 <= int(i) && int(i) <= int(b) && int(b) == 4 && int(m) == 8
+//@   loop 1 invariant forall p :: 0 <= p && p < 8*int(i) ==> !xbit(one, other, p)
+//@   loop 1 decreases int(b) - int(i)
+//@   loop 2 unroll 8
+
+//@ func ExtendedProximity
+//@   property C20
+//@   requires len(one) == len(other) && 8*len(one) > 36
+//@   ensures cap: int(ret) <= 36
+//@   ensures prefix-equal: forall p :: 0 <= p && p < int(ret) ==> !xbit(one, other, p)
+//@   ensures first-diff: int(ret) < 36 ==> xbit(one, other, int(ret))
+//@   loop 1 invariant 0 <= int(i) && int(i) <= int(b) && int(b) == 5 && int(m) == 8
+//@   loop 1 invariant forall p :: 0 <= p && p < 8*int(i) ==> !xbit(one, other, p)
+//@   loop 1 decreases int(b) - int(i)
+//@   loop 2 unroll 8
